@@ -1270,17 +1270,17 @@ def shard(arg):
             res.failures.append(oracle_scope({'kind': 'scope', 'src': c['src']}))
     compare_model(cases, res)
     compare_lookup(gen_lookup_objects(rng, max(100, n // 2)), res)
-    ccases = CG.gen_ceval_cases(rng, max(150, n // 2))
+    ccases = CG.gen_ceval_cases(rng, max(150, min(n // 2, 4000)))
     if idx == 0:
         ccases = [{'kind': 'ceval', 'src': s_, 'lookup': lk, 'data': d_, 'feat': ['hand']} for s_, d_ in CG.HAND_CEVAL for lk in ('strict', 'lenient')] + ccases
     # the called-lambda shapes of the oracle also through the model (context names outside the model's domain dropped)
-    for c in lambda_call_cases(rng, max(40, n // 10)):
+    for c in lambda_call_cases(rng, max(40, min(n // 10, 1000))):
         names = set(re.findall(r'[A-Za-z_][A-Za-z0-9_]*', c['src']))
         data = dict((k, v) for k, v in c['data'].items() if k in names)
         if all(CG.in_domain(v) for v in data.values()):
             ccases.append({'kind': 'ceval', 'src': c['src'], 'lookup': c['lookup'], 'data': data, 'feat': [c['shape']]})
     compare_ceval(ccases, res)
-    tcases = CG.gen_template_cases(rng, max(60, n // 6))
+    tcases = CG.gen_template_cases(rng, max(60, min(n // 6, 1500)))
     if idx == 0:
         tcases = [{'kind': 'tmpl', 'form': f_, 'src': s_, 'expr': e_, 'bind': b_, 'lookup': lk, 'data': d_, 'feat': ['hand']}
                   for f_, s_, e_, b_, d_ in CG.HAND_TMPL for lk in ('strict', 'lenient')] + tcases
